@@ -19,7 +19,7 @@ PLAN = dict(
                det("dbg", H, "cs-dbg", 8, 15, 4, tso=True, time_cap=25, args=["--no-soft0"]),
                det("rel-locks", H, "cs-rel", 8, 80, 4, tso=True, time_cap=30, args=["--locks"]),
                det("l1-monitor", L1, "cs-rel", 8, 400, 6, tso=True, time_cap=25, optional=True, case_prefix="mon "),
-               tsan("C02", 4, 80)],
+               tsan("C02", 8, 240)],
         thorough=[det("rel", H, "cs-rel", 16, 1500, 5, tso=True, time_cap=300),
                   det("dbg", H, "cs-dbg", 16, 400, 5, tso=True, time_cap=200, args=["--no-soft0"]),
                   det("rel-locks", H, "cs-rel", 16, 800, 5, tso=True, time_cap=200, args=["--locks"]),
